@@ -2,140 +2,98 @@
 
 The constraint solver dispatches on the number of dofs (solver.py / io.py of the pinned tree):
   nv <= 32 | > 32   one-tile Cholesky vs blocked (augmented for Newton) Cholesky; nv_pad rounding 4 vs 16; jacobian=auto picks sparse
-  nv+1 <= 48 | > 48 (Newton), nv <= 48 | > 48 (CG): nv_pad 48 vs 64 (tile count of the blocked factorisation / J'DJ tiles)
   nv <= 50 | > 50   jv = J*search fused into the line-search kernel vs separate kernels (zero + atomic accumulation by
-                    ceil(nv/20) threads per row); same split for the initial Jaref
-  nv <= 60 | > 60   dense Jacobian refused by put_model above 60 (sparse only); nv_pad 64 vs 80 from nv = 64 (Newton: 63)
+                    ceil(nv/20) threads per row, reused while the search ray is unchanged); same split for the initial Jaref
+  nv <= 60 | > 60   dense Jacobian refused by put_model above 60 (sparse only)
+  nv+1 <= 48 | > 48 (Newton), nv <= 48 | > 48 (CG): nv_pad 48 vs 64 (tile count of the blocked factorisation / J'DJ tiles);
+                    nv_pad 80 from nv = 64 (Newton: 63)
 A size scene is built for an exact nv on each side of every threshold, in two structurally different kinds:
 
-  "bodies": k = nv // 6 free bodies lying on / hitting a tilted plane (kinds cycling box, box stacked on the previous box,
-            sphere, lying capsule; 6x6 inertia blocks; connects between some neighbours give off-diagonal Hessian blocks) and
-            nv - 6k hinge dofs of a limited pendulum arm.  Per body the contact parameters run through small alphabets:
-            mass scale {1, 0.01, 0.001}, solimp {default, 0.99/0.999, 0.999/0.9999} (body geoms have priority 1, so the
-            body's values are the contact's), approach speed along the plane normal {0.05, 1, 3}.
-  "arms":   nv hinge dofs in serial arms of <= 12 links hanging from the world (12x12 dense inertia blocks, deep trees), with
-            violated / margin-active joint limits, friction loss, joint equalities coupling neighbouring arms and a limited
-            fixed tendon; no contacts.
+  "row":  k = nv // 6 free boxes lying in a grid on a (flat or 5 degree tilted) plane, 2 mm deep, no coupling between them
+          (6x6 inertia blocks, 4 contacts each), plus nv - 6k hinge dofs of a pendulum arm with violated limits.  Box sizes and
+          masses vary with the index; every third triple of boxes has stiff contacts (solimp 0.99/0.999 instead of the default
+          0.9/0.95; box geoms have priority 1 so their values are the contact's); approach speed along the plane normal runs
+          through {0.05, 1, 3} m/s.  Three states: moving (approach + sliding + spinning), and two "pressed" states (pure normal
+          approach, the speed alphabet rotated by one between them) in which every contact row stays active from the start
+          point to the optimum, i.e. the solver's constraint states never change while it iterates.
+  "arms": nv hinge dofs in serial arms of <= 12 links hanging from the world (12x12 dense inertia blocks, deep trees), with
+          violated / margin-active joint limits, friction loss, joint equalities coupling neighbouring arms and a limited
+          fixed tendon; no contacts.  States: moving, moving reversed, at rest.
 
-Only closed-form collision pairs (plane-box, plane-sphere, plane-capsule, box-box as in the dedicated stack scenes).
+Only closed-form collision pairs (plane-box).
 """
 
 import numpy as np
 
 from mc.refs import conscenes as cs
 
-# (nv, why) -- both sides of every size threshold; dense is requested only where put_model accepts it (nv <= 60)
+# (nv, why, in quick tier) -- both sides of every size threshold; dense is requested only where put_model accepts it (nv <= 60)
 SIZES = (
-  (32, "last one-tile Cholesky"),
-  (33, "first blocked Cholesky, nv_pad 48"),
-  (47, "Newton: last nv_pad 48"),
-  (48, "Newton: first nv_pad 64; CG: last nv_pad 48"),
-  (49, "CG: first nv_pad 64"),
-  (50, "last fused jv"),
-  (51, "first separate jv / Jaref accumulation (3 threads per row)"),
-  (60, "largest dense"),
-  (61, "sparse only; 4 accumulation threads"),
-  (65, "sparse only; nv_pad 80"),
+  (32, "last one-tile Cholesky", True),
+  (33, "first blocked Cholesky, nv_pad 48", True),
+  (47, "Newton: last nv_pad 48", False),
+  (48, "Newton: first nv_pad 64; CG: last nv_pad 48", False),
+  (49, "CG: first nv_pad 64", False),
+  (50, "last fused jv", True),
+  (51, "first separate jv / Jaref accumulation (3 threads per row)", True),
+  (60, "largest dense", True),
+  (61, "sparse only; 4 accumulation threads", True),
+  (65, "sparse only; nv_pad 80", False),
 )
 DENSE_MAX = 60
 
-MASS = (1.0, 0.01, 0.001)
-SOLIMP = ("0.9 0.95 0.001", "0.99 0.999 0.001", "0.999 0.9999 0.001")
+SOLIMP = ("0.9 0.95 0.001", "0.9 0.95 0.001", "0.99 0.999 0.001")
 VDOWN = (0.05, 1.0, 3.0)
 ARM = 12
 
 
-def _fmt(v):
-  return " ".join(f"{float(x):.7g}" for x in v)
-
-
-def bodies(nv, variant=0):
+def row(nv, variant=0):
+  """k = nv // 6 free boxes lying in a grid on the tilted plane, no couplings between them; nv - 6k limited hinge dofs."""
   v = variant % 4
   condim = (3, 4, 3, 6)[v]
   fr = ("0.8 0.02 0.01", "0.5 0.03 0.02", "1.1 0.01 0.005", "0.3 0.05 0.01")[v]
-  tilt = ("1 0 0 0", "0.9961947 0.0871557 0 0", "0.9961947 0 0.0871557 0", "0.9914449 0.0922959 0.0922959 0")[v]
+  tilt = ("1 0 0 0", "0.9961947 0.0871557 0 0", "0.9961947 0 0.0871557 0", "0.9990482 0.0308436 0.0308436 0")[v]  # flat, 5 deg about x / y / the diagonal
   tq = [float(x) for x in tilt.split()]
   R = cs._quat_to_mat(tq)
   n = R[:, 2]
-
-  def above(h, lateral):
-    return [float(x) for x in (n * h + R[:, 0] * lateral[0] + R[:, 1] * lateral[1])]
-
-  def vel(i, down):
-    lat = (0.3 * ((i % 3) - 1), -0.2 * ((i % 2) * 2 - 1))
-    lin = -n * down + R[:, 0] * lat[0] + R[:, 1] * lat[1]
-    ang = [0.4 * ((i % 3) - 1), -0.3 * (i % 2), 0.5 * ((i + 1) % 3 - 1)]
-    return [float(x) for x in lin] + ang
-
   k, r = divmod(nv, 6)
-  xml_b, qpos, qvel, eq = "", [], [], ""
-  prev_box = None  # (height of its top face, lateral, mass alphabet index, solimp index) of the last bottom box
+  xml_b, qpos, qvel, qvel_p, qvel_q = "", [], [], [], []
   for i in range(k):
-    kind = ("box", "boxtop", "sphere", "capsule")[i % 4]
-    col, row = i % 5, i // 5
-    lateral = (0.6 * col - 1.2, 0.6 * row - 0.6)
-    mi, si, di = (i + v) % 3, (i // 3 + v) % 3, (i + i // 3) % 3
-    if kind == "boxtop" and prev_box is None:
-      kind = "box"
-    if kind == "boxtop":
-      top, lateral0, mi, si = prev_box
-      hz = 0.06
-      size = f"0.1 0.085 {hz}"
-      lateral = (lateral0[0] + 0.01, lateral0[1] - 0.015)
-      pos = above(top + hz - 0.003, lateral)
-      quat = tq
-      geom = f'type="box" size="{size}"'
-      mass = 1.5
-      prev_box = None
-    elif kind == "box":
-      hz = 0.05
-      geom = f'type="box" size="0.12 0.1 {hz}"'
-      pos = above(hz - 0.002, lateral)
-      quat = tq
-      mass = 1.0
-      prev_box = (2 * hz - 0.002, lateral, mi, si)
-    elif kind == "sphere":
-      geom = 'type="sphere" size="0.08"'
-      pos = above(0.077, lateral)
-      quat = [1, 0, 0, 0]
-      mass = 0.7
-    else:
-      geom = 'type="capsule" size="0.04 0.1"'
-      pos = above(0.037, lateral)
-      quat = list(cs._quat_z_to(R[:, i % 2]))
-      mass = 0.6
+    col, rw = i % 5, i // 5
+    lateral = (0.6 * col - 1.2, 0.6 * rw - 0.6)
+    si, di = (i // 3 + v) % 3, (i + i // 3) % 3
+    hx, hy, hz = 0.12 - 0.01 * (i % 3), 0.1 - 0.01 * (i % 2), 0.05 + 0.01 * (i % 4)
+    pos = n * (hz - 0.002) + R[:, 0] * lateral[0] + R[:, 1] * lateral[1]
     xml_b += (
-      f'<body name="b{i}"><freejoint/><geom {geom} condim="{condim}" friction="{fr}" priority="1" '
-      f'solimp="{SOLIMP[si]}" mass="{mass * MASS[mi]:.7g}"/></body>'
+      f'<body name="b{i}"><freejoint/><geom type="box" size="{hx:.3g} {hy:.3g} {hz:.3g}" condim="{condim}" friction="{fr}" priority="1" '
+      f'solimp="{SOLIMP[si]}" mass="{1.0 + 0.3 * i:.7g}"/></body>'
     )
-    qpos += pos + [float(x) for x in quat]
-    qvel += vel(i, VDOWN[di])
-    if kind == "capsule":
-      # couple the capsule to the sphere before it (off-diagonal Hessian block, always-active quadratic rows)
-      eq += f'<connect body1="b{i - 1}" body2="b{i}" anchor="0.05 0 0.02"/>'
+    qpos += [float(x) for x in pos] + tq
+    lat = (0.3 * ((i % 3) - 1), -0.2 * ((i % 2) * 2 - 1))
+    lin = -n * VDOWN[di] + R[:, 0] * lat[0] + R[:, 1] * lat[1]
+    qvel += [float(x) for x in lin] + [0.4 * ((i % 3) - 1), -0.3 * (i % 2), 0.5 * ((i + 1) % 3 - 1)]
+    qvel_p += [float(x) for x in -n * VDOWN[di]] + [0.0, 0.0, 0.0]
+    qvel_q += [float(x) for x in -n * VDOWN[(di + 1) % 3]] + [0.0, 0.0, 0.0]
   arm = ""
   if r:
     arm, close = '<body name="arm" pos="0 0 1.5">', "</body>"
     for j in range(r):
       if j:
-        arm += f'<body pos="0.15 0 0">'
+        arm += '<body pos="0.15 0 0">'
         close += "</body>"
       axis = ("0 1 0", "0.6 0.8 0", "0 0 1")[j % 3]
-      fl = ' frictionloss="0.1"' if j % 2 else ""
       arm += (
-        f'<joint name="a{j}" type="hinge" axis="{axis}" limited="true" range="-0.3 0.3"{fl}/>'
+        f'<joint name="a{j}" type="hinge" axis="{axis}" limited="true" range="-0.3 0.3"/>'
         f'<geom type="capsule" fromto="0 0 0 0.15 0 0" size="0.02" contype="0" conaffinity="0"/>'
       )
       qpos.append((0.4, -0.1, -0.35)[j % 3])
       qvel.append((0.5, -1.0, 0.3)[j % 3])
+      qvel_p.append(0.0)
+      qvel_q.append(0.0)
     arm += close
   plane = f'<geom name="floor" type="plane" size="3 3 .1" quat="{tilt}" condim="{condim}" friction="{fr}"/>'
-  xml = (
-    f'<mujoco><compiler angle="radian"/><worldbody>{plane}{xml_b}{arm}</worldbody>'
-    + (f"<equality>{eq}</equality>" if eq else "")
-    + "</mujoco>"
-  )
-  return xml, qpos, qvel, dict(njmax=1024, nconmax=128)
+  xml = f'<mujoco><compiler angle="radian"/><worldbody>{plane}{xml_b}{arm}</worldbody></mujoco>'
+  return xml, [(qpos, qvel), (qpos, qvel_q), (qpos, qvel_p)], dict(njmax=1024, nconmax=128)
 
 
 def arms(nv, variant=0):
@@ -177,11 +135,12 @@ def arms(nv, variant=0):
     + fixed
     + "</mujoco>"
   )
-  return xml, qpos, qvel, dict(njmax=256, nconmax=8)
+  return xml, [(qpos, qvel), (qpos, [-0.5 * x + 0.1 for x in qvel]), (qpos, [0.0] * nv)], dict(njmax=256, nconmax=8)
 
 
-KINDS = {"bodies": bodies, "arms": arms}
+KINDS = {"row": row, "arms": arms}
 
 
 def build(kind, nv, variant=0):
+  """(xml, [(qpos, qvel)] * 3, make_data kwargs)"""
   return KINDS[kind](nv, variant)
